@@ -6,6 +6,7 @@ pub mod arena;
 pub mod choice;
 pub mod cmp;
 pub mod engine;
+pub mod fuzzdec;
 pub mod gen;
 pub mod model;
 pub mod neon_emu;
